@@ -40,6 +40,8 @@ var sharedTree = map[string]string{
 	"shC.tsh":  "import (\n\tl \"lib.tsh\"\n\tu \"util.tsh\"\n)\n\nprint(l.Say(\"c\"), u.Count())\n",
 	"shD.tsh":  "import u \"util.tsh\"\n\nprint(u.Greet(\"d\"))\n",
 	"shBad.tsh": "import l \"lib.tsh\"\n\nx := 1\nx = l.Say(\"oops\")\n",
+	// fails while a function body is being parsed (undefined name in a return), after a function that parsed well
+	"shBadFn.tsh": "import l \"lib.tsh\"\n\nfunc fine(n int) int {\n\treturn n + 1\n}\nfunc broken(s string) string {\n\tfor i := 0; i < 2; i++ {\n\t\tif i == 1 {\n\t\t\treturn l.Say(s) + missing\n\t\t}\n\t}\n\treturn s\n}\nprint(fine(1), broken(\"x\"))\n",
 }
 
 // programs at one and the same path whose imported file is rewritten between calls (versions 1 and 2)
